@@ -1282,6 +1282,35 @@ class NpProxy(types.ModuleType):
         for i in range(min(a.shape)):
             a[i, i] = v
 
+    def divide(self, a, b, out=None, where=True, **kw):
+        """numpy.divide with out= / where= on proxy arrays: cells outside `where` keep the value of `out`"""
+        aa = _real_np.asarray(a.d if isinstance(a, SSparse) else a)
+        bb = _real_np.asarray(b.d if isinstance(b, SSparse) else b)
+        sym = any(isinstance(x, _real_np.ndarray) and x.dtype == object for x in (aa, bb)) or \
+            (isinstance(where, _real_np.ndarray) and where.dtype == object)
+        if not sym:
+            return _rewrap(_real_np.divide(aa, bb, out=out, where=where, **kw))
+        shape = _real_np.broadcast(aa, bb).shape
+        A_ = _real_np.broadcast_to(aa, shape)
+        B_ = _real_np.broadcast_to(bb, shape)
+        W_ = _real_np.broadcast_to(_real_np.asarray(where), shape)
+        O_ = _real_np.broadcast_to(_real_np.asarray(out), shape) if out is not None else None
+        res = _real_np.empty(shape, dtype=object)
+        for idx in _real_np.ndindex(*shape):
+            w = W_[idx]
+            wv = unwrap_b(w) if isinstance(w, SB) else bool(w)
+            if wv is False:
+                res[idx] = O_[idx] if O_ is not None else 0
+                continue
+            x, y = A_[idx], B_[idx]
+            x = x if isinstance(x, (SV, SB)) else wrap(_num(x))
+            val = (x if isinstance(x, SV) else SV(_num(x))) / y
+            if wv is True:
+                res[idx] = val
+            else:
+                res[idx] = wrap(ite(wv, _num(val), _num(O_[idx]) if O_ is not None else 0))
+        return SymNd(res)
+
     def argsort(self, a, axis=-1, **kw):
         if _has_sym(a):
             return sym_argsort(a, axis)
